@@ -25,6 +25,9 @@ SPEC (a dict; everything the source does not say itself)
   raise_state  False: an exception discards the attribute writes (a constructor: the object is never seen) — the result
             is `Except Err St` instead of `Res St α`
   drop_calls   call statements the spec declares outside the model (`super().__init__(src_packet)`)
+  drop_stmts   statements (by the start of their text) the spec declares outside the model: they only build a logging string
+  split_loops  True: the round of a pure `for` fold becomes a definition of its own (`<name>.loop<k>`)
+  instances    opaque types whose values are classes a local holds: calling such a local (`mac()`) is the value itself
   calls     {python function name: {lean, args, ret, raises}}   other translated functions this one calls
   fuel      {start of a `while` statement: python expression}   an upper bound of its rounds (see `PyRt.whileS`)
   externals [(lean name, lean type)]   functions outside the model (`cryptography`, dpkt …): leading parameters of the
@@ -135,6 +138,8 @@ def ty(t):
         return str(t)
     if t in TYPE_ALIAS:
         return TYPE_ALIAS[t]
+    if t == "Acc":
+        return "PyRt.Acc"
     if t.startswith("Fmt:"):
         return "List PyRt.Fld"
     if t.startswith("Tup:"):
@@ -358,6 +363,10 @@ class Translator:
 
     def e_Name(self, node, env):
         v = env.get(node.id)
+        if v is not None and node.id in self.spec.get("maybe_locals", {}):
+            # a local that a loop may or may not have assigned: `none` = unbound (UnboundLocalError when read)
+            t = self.spec["maybe_locals"][node.id]
+            return V(self.hoist(f"PyRt.unboundE {v.term}", t, node), t)
         known = self.seen_types.get(node.id, self.spec.get("locals", {}).get(node.id))
         if (v is None and node.id in getattr(self, "assigned_anywhere", ()) and ("maybe", node.id) not in env
                 and known is not None):
@@ -392,10 +401,50 @@ class Translator:
             t = self.join_type(t, e.typ, node)
         return V("[" + ", ".join(self.coerce(e, t, node) for e in els) + "]", f"List {t}" if " " not in t else f"List ({t})")
 
+    def e_ListComp(self, node, env):
+        """`[e for x in it]` (one generator, no condition, an element expression that cannot raise)"""
+        if len(node.generators) != 1 or node.generators[0].ifs or node.generators[0].is_async:
+            self.bad(node, "list comprehension with several generators or a condition")
+        g = node.generators[0]
+        saved = self.hoists
+        self.hoists = []
+        try:
+            lst, bound, hs = self.loop_iter(g, env)
+            if hs or self.hoists:
+                self.bad(node, "a list comprehension whose iterable may raise")
+        finally:
+            self.hoists = saved
+        env2 = dict(env)
+        for n, t, nn in bound:
+            env2[n] = V(lname(n), t, nn)
+        e = self.strict(lambda: self.expr(node.elt, env2))
+        ety = " × ".join(ty_arg(t) if " " in ty(t) else ty(t) for _, t, _ in bound)
+        if len(bound) == 1:
+            fn = f"(fun ({lname(bound[0][0])} : {ety}) => {e.term})"
+        else:
+            pre = " ".join(f"let {lname(n)} : {ty(t)} := py_i" + ".2" * k + (".1" if k < len(bound) - 1 else "") + ";"
+                           for k, (n, t, _) in enumerate(bound))
+            fn = f"(fun (py_i : {ety}) => {pre} {e.term})"
+        rt = e.typ if " " not in e.typ else f"({e.typ})"
+        return V(f"(List.map {fn} {lst})", f"List {rt}")
+
     def e_Dict(self, node, env):
-        if node.keys:
-            self.bad(node, "non-empty dict literal")
-        return V("{}", "EmptyDict")
+        if not node.keys:
+            return V("{}", "EmptyDict")
+        if any(k is None for k in node.keys):
+            self.bad(node, "dict display with `**`")
+        ks = [self.expr(k, env) for k in node.keys]
+        vs = [self.expr(v, env) for v in node.values]        # (Python evaluates key, value, key, value …: nothing here may raise)
+        if any(k.typ != ks[0].typ or k.lit is None for k in ks):
+            self.bad(node, "dict display whose keys are not literals of one type")
+        vt = vs[0].typ
+        for v in vs[1:]:
+            vt = self.join_type(vt, v.typ, node)
+        if vt in ("NoneType", "EmptyDict", "EmptyList"):
+            self.bad(node, "dict display whose values have no known type")
+        ents = ", ".join(f"({k.term}, {self.coerce(v, vt, node)})" for k, v in zip(ks, vs))
+        vts = vt if " " not in vt else f"({vt})"
+        return V(f"([{ents}] : List ({ty_arg(ks[0].typ)} × {ty_arg(vt)}))", f"Table {ks[0].typ}; {vts}")
 
     def arith(self, node, a, b, natop, intop, nn):
         """both Nat → the Nat operation; else the Int operation on casts"""
@@ -482,6 +531,9 @@ class Translator:
         b = self.expr(node.right, env)
         if op == "Add" and a.typ == "Bytes" and b.typ == "Bytes":
             return V(f"({a.term} ++ {b.term})", "Bytes")
+        if op == "Mult" and ((is_int(a.typ) and b.typ in ("Str", "Bytes")) or (a.typ in ("Str", "Bytes") and is_int(b.typ))):
+            n, x = (a, b) if is_int(a.typ) else (b, a)
+            return V(f"(PyRt.repeatSeq {self.to_int(n)} {x.term})", x.typ)          # a count ≤ 0 gives the empty sequence
         if op == "BitOr" and a.typ.startswith("Set ") and a.typ == b.typ:
             return V(f"({a.term} ++ {b.term})", a.typ)        # a list standing for the set; a set is only ever asked `in`
         if not (is_int(a.typ) and is_int(b.typ)):
@@ -723,10 +775,19 @@ class Translator:
             proj = x.term + ".2" * j + (".1" if j < len(parts) - 1 else "")
             return V(f"({proj})", unparen(parts[j]))
         i = self.expr(node.slice, env)
+        if x.typ == "Str":
+            if not is_int(i.typ):
+                self.bad(node, f"index of type {i.typ}")
+            return V(self.hoist(f"PyRt.strItemE {x.term} {self.to_int(i)}", "Str", node), "Str")
         if x.typ == "Bytes":
             if not is_int(i.typ):
                 self.bad(node, f"index of type {i.typ}")
             return V(self.hoist(f"PyRt.getItem {x.term} {self.to_int(i)}", "Nat", node), "Nat", True)
+        if x.typ.startswith("List "):
+            if not is_int(i.typ):
+                self.bad(node, f"index of type {i.typ}")
+            et = elem_type(x.typ)
+            return V(self.hoist(f"PyRt.listItemE {x.term} {self.to_int(i)}", et, node), et)
         if x.typ.startswith("Table "):
             kt, vt = split_table(x.typ)
             return V(self.hoist(f"PyRt.tableGetE {x.term} {self.coerce(i, kt, node)}", vt, node), vt)
@@ -760,6 +821,53 @@ class Translator:
             if a.typ == "Bytes" and b.typ == "Bytes":
                 return V(f"(PyRt.zipBytes {a.term} {b.term})", "List (Nat × Nat)")
             self.bad(node, f"zip of {a.typ} and {b.typ}")
+        if isinstance(f, ast.Name) and f.id in env and env[f.id].typ in self.spec.get("instances", ()) and not node.args and not kw:
+            return env[f.id]                     # instantiating a class held in a local: the instance is named like its class
+        if (isinstance(f, ast.Attribute) and f.attr == "finalize" and not node.args and not kw and isinstance(f.value, ast.Name)
+                and f.value.id in env and env[f.value.id].typ == "Acc"):
+            x = env[f.value.id]
+            # (a second `finalize` / a later `update` raises AlreadyFinalized: the object is not usable afterwards)
+            env[f.value.id] = V(x.term, "Finalized")
+            return V(f"(PyRt.Acc.finalize {x.term})", "Bytes")
+        if (isinstance(f, ast.Attribute) and isinstance(f.value, ast.Call)
+                and self.key(f.value.func) + "." + f.attr in self.spec.get("calls", {})):
+            # `Class(a, …).method(b, …)` the spec names as one external function of (a, …, b, …)
+            c = self.spec["calls"][self.key(f.value.func) + "." + f.attr]
+            cpar, mpar = c.get("params", ([], []))
+            order = list(cpar) + list(mpar)
+            given = list(f.value.args) + list(node.args)
+            if kw or [k for k in f.value.keywords]:
+                if not order or len(f.value.args) > len(cpar) or len(node.args) > len(mpar):
+                    self.bad(node, f"call of `{self.key(f.value.func)}(…).{f.attr}` with keywords the spec has no parameter names for")
+                pos = {cpar[i]: a for i, a in enumerate(f.value.args)}
+                pos.update({mpar[i]: a for i, a in enumerate(node.args)})
+                pos.update({k.arg: k.value for k in f.value.keywords})
+                pos.update(kw)
+                if set(pos) != set(order):
+                    self.bad(node, f"call of `{self.key(f.value.func)}(…).{f.attr}` that does not give exactly the parameters {order}")
+                given = [pos[n_] for n_ in order]
+            if len(given) != len(c["args"]):
+                self.bad(node, f"call of `{self.key(f.value.func)}(…).{f.attr}` with {len(given)} arguments, the spec knows {len(c['args'])}")
+            args = [None if t is None else self.coerce(self.expr(a, env), t, node) for a, t in zip(given, c["args"])]
+            for a, t in zip(given, c["args"]):
+                if t is None and not isinstance(a, ast.Constant):
+                    self.bad(a, "an ignored argument that is not a literal")
+            term = f"{c['lean']} " + " ".join(a for a in args if a is not None)
+            if c.get("raises"):
+                return V(self.hoist(term, c["ret"], node), c["ret"])
+            return V(f"({term})", c["ret"])
+        if fname == "bytes" and len(node.args) == 2 and not kw and isinstance(node.args[1], ast.Constant) and node.args[1].value == "utf-8":
+            x = self.expr(node.args[0], env)
+            if x.typ != "Str":
+                self.bad(node, f"bytes(…, 'utf-8') of {x.typ}")
+            return V(self.hoist(f"PyRt.utf8E {x.term}", "Bytes", node), "Bytes")        # UnicodeEncodeError (a ValueError) on surrogates
+        if fname in ("bytes", "bytearray") and len(node.args) == 1 and not kw and isinstance(node.args[0], ast.ListComp):
+            lc = self.expr(node.args[0], env)
+            et = elem_type(lc.typ)
+            if not is_int(et):
+                self.bad(node, f"{fname}() of a list of {et}")
+            lst = lc.term if et == "Int" else f"(List.map Int.ofNat {lc.term})"
+            return V(self.hoist(f"PyRt.bytesOfE {lst}", "Bytes", node), "Bytes")
         if fname == "bytes" and len(node.args) == 1 and not kw and isinstance(node.args[0], ast.List):
             els = [self.expr(e, env) for e in node.args[0].elts]
             if not all(is_int(e.typ) for e in els):
@@ -870,7 +978,7 @@ class Translator:
                 self.bad(node, "an ignored argument that is not a plain name")
             return V(self.hoist(f"PyRt.callClass {c.term} (fun py_c => {cc['lean']} py_c " + " ".join(args) + ")", cc["ret"], node), cc["ret"])
         ctors = self.spec.get("ctors", {})
-        if fname in ctors and node.args and "positional" in ctors[fname] and not kw:
+        if fname in ctors and node.args and "positional" in ctors[fname] and set(kw) <= set(ctors[fname].get("ignore_kw", ())):
             # `Class(a, b, c)`: the spec names the field each position fills (None: a literal argument outside the model)
             c = ctors[fname]
             if len(node.args) != len(c["positional"]):
@@ -878,8 +986,8 @@ class Translator:
             out = list(c.get("consts", []))
             for a, (fld, t) in zip(node.args, c["positional"]):
                 if fld is None:
-                    if not isinstance(a, ast.Constant):
-                        self.bad(a, "an ignored constructor argument that is not a literal")
+                    if not isinstance(a, (ast.Constant, ast.Name)):
+                        self.bad(a, "an ignored constructor argument that is not a literal or a plain name")
                     continue
                 out.append(f"{fld} := {self.coerce(self.expr(a, env), t, a)}")
             return V("({ " + ", ".join(out) + " } : " + c["type"] + ")", c["type"])
@@ -919,6 +1027,12 @@ class Translator:
             if c.get("raises"):
                 return V(self.hoist(term, c["ret"], node), c["ret"])
             return V(f"({term})", c["ret"])
+        if fname in calls and not kw and "fmt" in calls[fname]:
+            c = calls[fname]
+            if len(node.args) != len(c["args"]):
+                self.bad(node, f"call of `{fname}` with {len(node.args)} arguments, the spec knows {len(c['args'])}")
+            args = [self.coerce(self.expr(a, env), t, node) for a, t in zip(node.args, c["args"])]
+            return V(c["fmt"].format(*args), c["ret"])
         if fname in calls and not kw:
             c = calls[fname]
             if len(node.args) != len(c["args"]):
@@ -950,6 +1064,8 @@ class Translator:
         st, rest = stmts[0], stmts[1:]
         if self.dropped(st):
             return self.block(rest, env, frame)
+        if any(ast.unparse(st).startswith(p) for p in self.spec.get("drop_stmts", ())):
+            return self.block(rest, env, frame)          # the spec declares this statement outside the model (it only feeds logging)
         m = getattr(self, "s_" + type(st).__name__, None)
         if m is None:
             self.bad(st, f"statement form {type(st).__name__} is outside the subset")
@@ -985,6 +1101,8 @@ class Translator:
                 if not v.typ.startswith("Fmt:"):
                     self.bad(node, f"a struct format local assigned {v.typ}")
                 decl = None
+            if target.id in self.spec.get("maybe_locals", {}):
+                decl = "Option " + ty_arg(self.spec["maybe_locals"][target.id]) if " " in self.spec["maybe_locals"][target.id] else "Option " + self.spec["maybe_locals"][target.id]
             if decl is not None:
                 v = V(self.coerce(v, decl, node), decl, v.nn and decl == "Int")
             if v.typ in ("NoneType", "EmptyDict", "EmptyList"):
@@ -1014,6 +1132,14 @@ class Translator:
         self.bad(node, "assignment target is neither a local name nor a place of the spec")
 
     def s_Assign(self, st, rest, env, frame):
+        if len(st.targets) > 1 and all(isinstance(t, ast.Name) for t in st.targets):
+            # `a = b = e`: `e` is evaluated once, then bound left to right
+            first = ast.Assign(targets=[st.targets[0]], value=st.value)
+            more = [ast.Assign(targets=[t], value=ast.Name(id=st.targets[0].id, ctx=ast.Load())) for t in st.targets[1:]]
+            for n in [first] + more:
+                ast.copy_location(n, st)
+                ast.fix_missing_locations(n)
+            return self.block([first] + more + list(rest), env, frame)
         if len(st.targets) != 1:
             self.bad(st, "chained assignment")
         if self.key(st.targets[0]) in self.spec.get("ignore_writes", ()):
@@ -1242,6 +1368,19 @@ class Translator:
 
     def s_Expr(self, st, rest, env, frame):
         c0 = st.value
+        if (isinstance(c0, ast.Call) and isinstance(c0.func, ast.Attribute) and c0.func.attr == "update" and len(c0.args) == 1
+                and not c0.keywords and isinstance(c0.func.value, ast.Name) and c0.func.value.id in env
+                and env[c0.func.value.id].typ == "Acc"):
+            # a hash / HMAC object of `cryptography`: `update` appends to what `finalize` will digest
+            x = env[c0.func.value.id]
+            v, hs = self.eval(c0.args[0], env)
+            if v.typ != "Bytes":
+                self.bad(st, f"update() with {v.typ}")
+
+            def inner():
+                env2, line = self.bind(c0.func.value, V(f"(PyRt.Acc.update {x.term} {v.term})", "Acc"), env, st)
+                return line + "\n" + self.block(rest, env2, frame)
+            return self.with_hoists(hs, env, frame, inner)
         if isinstance(c0, ast.Call) and self.key(c0.func) in self.state_calls:
             return self.state_call(c0, env, frame, lambda v, env1: self.block(rest, env1, frame))
         if (isinstance(c0, ast.Call) and isinstance(c0.func, ast.Attribute) and c0.func.attr == "append" and len(c0.args) == 1
@@ -1301,7 +1440,33 @@ class Translator:
             return f"let acts' := {old} ++ [{self.actions[k]}]\n" + self.block(rest, env2, frame)
         self.bad(st, "expression statement (a call with effects the spec does not name)")
 
+    def as_condition(self, node, env):
+        """the test of an `if`: only its truth matters, so an int operand of and/or/not stands for `!= 0`"""
+        if isinstance(node, ast.BoolOp):
+            new = ast.BoolOp(op=node.op, values=[self.as_condition(v, env) for v in node.values])
+        elif isinstance(node, ast.UnaryOp) and isinstance(node.op, ast.Not):
+            new = ast.UnaryOp(op=node.op, operand=self.as_condition(node.operand, env))
+        else:
+            saved = (self.hoists, self.tmp)
+            self.hoists = []
+            try:
+                t = self.expr(node, env).typ
+            except Untranslatable:
+                t = None
+            finally:
+                self.hoists, self.tmp = saved
+            if t is None or not is_int(t):
+                return node
+            new = ast.Compare(left=node, ops=[ast.NotEq()], comparators=[ast.Constant(value=0)])
+        ast.copy_location(new, node)
+        ast.fix_missing_locations(new)
+        return new
+
     def s_If(self, st, rest, env, frame):
+        if isinstance(st.test, (ast.BoolOp, ast.UnaryOp)):
+            cond = self.as_condition(st.test, env)
+            if cond is not st.test:
+                st = ast.copy_location(ast.If(test=cond, body=st.body, orelse=st.orelse), st)
         if isinstance(st.test, ast.BoolOp):
             mark = (self.tmp, self.raises)
             try:
@@ -1484,6 +1649,12 @@ class Translator:
             if x.typ != "Bytes" or len(ns) != 2:
                 self.bad(st, "enumerate() of anything but bytes, or not unpacked into two names")
             return f"(PyRt.enumFrom 0 {x.term})", [(ns[0], "Nat", True), (ns[1], "Nat", True)], hs
+        if isinstance(it, ast.Call) and self.key(it.func) == "zip" and len(it.args) == 2 and not it.keywords:
+            x, hs = self.eval(it, env)
+            ns = names(tg)
+            if x.typ != "List (Nat × Nat)" or len(ns) != 2:
+                self.bad(st, "zip() of anything but two byte strings, or not unpacked into two names")
+            return x.term, [(ns[0], "Nat", True), (ns[1], "Nat", True)], hs
         x, hs = self.eval(it, env)
         if x.typ.startswith("Table ") and isinstance(tg, ast.Name):
             kt = split_table(x.typ)[0]
@@ -1636,6 +1807,8 @@ class Translator:
             loop = f"PyRt.whileS {fuel} {init} {cf} {fn}"
         else:
             fn = f"(fun (py_s : {sty}) {binder} =>\n{ind(unpack + pre + body, 4)})"
+            if self.spec.get("split_loops") and not step and not body_raises:
+                fn = self.split_loop(st, env, sty, binder, unpack + pre + body, [b[0] for b in bound], mod)
             loop = mk(init, fn, step)
         if step:
             return (f"PyRt.loopS ({loop}) (fun py_e => {frame.raise_('py_e', env)}) (fun py_r => py_r) (fun py_s =>\n"
@@ -1645,6 +1818,37 @@ class Translator:
             return (f"PyRt.tryE (PyRt.forE {lst} {init} {fn}) (fun py_e => {frame.raise_('py_e', env)}) (fun py_s =>\n"
                     + after() + ")")
         return (f"let py_s : {sty} := List.foldl {fn} {init} {lst}\n" + unpack + self.block(rest, env2, frame))
+
+    def split_loop(self, st, env, sty, binder, body, bound_names, mod):
+        """spec `split_loops`: the round of a pure `for` fold becomes a definition of its own (`<name>.loop<k>`), with the names
+        it uses from outside as parameters — the main definition stays small and lemmas can name the round"""
+        import re
+        self.nloops = getattr(self, "nloops", 0) + 1
+        nm = f"{self.name}.loop{self.nloops}"
+        inner = set(bound_names) | {self.state_name(m) for m in mod} | {"py_s", "py_i"}
+        if re.search(r"\bpy_t_\d+\b", body):
+            defined = set(re.findall(r"fun (py_t_\d+) =>", body))
+            used = set(re.findall(r"\bpy_t_\d+\b", body))
+            if used - defined:
+                self.bad(st, "a loop body that uses a temporary of the enclosing statement (cannot be split off)")
+        params = []
+        for n, t in self.spec.get("externals", []):
+            if re.search(r"(?<![\w.'«])" + re.escape(n) + r"(?![\w'»])", body):
+                params.append((n, RawType(t)))
+        seen = {n for n, _ in params}
+        for k_, v in env.items():
+            if not isinstance(v, V) or not re.fullmatch(r"«?[A-Za-z_][\w]*»?'?", v.term):
+                continue
+            if v.term in seen or v.term in inner:
+                continue
+            if re.search(r"(?<![\w.'«])" + re.escape(v.term) + r"(?![\w'»])", body):
+                params.append((v.term, v.typ))
+                seen.add(v.term)
+        sig = " ".join(f"({n} : {ty(t)})" for n, t in params)
+        tp = "".join(f"{{{t} : Type}} " for t in self.spec.get("tparams", ()))
+        self.aux_defs = getattr(self, "aux_defs", [])
+        self.aux_defs.append(f"def {nm} {tp}{sig} (py_s : {sty}) {binder} : {sty} :=\n{ind(body)}\n")
+        return "(" + " ".join([nm] + [n for n, _ in params]) + ")"
 
     def state_name(self, m):
         if m == "__acts":
@@ -1973,6 +2177,9 @@ def _translate(tr, func, spec, assume_raises):
                    | ({tr.state["param"]} if tr.state is not None else set()))
     env = {}
     binders = [(n, RawType(t)) for n, t in spec.get("externals", [])]         # functions outside the model: parameters
+    for n, t in spec.get("maybe_locals", {}).items():
+        ot = "Option " + (ty_arg(t) if " " in t else t)
+        env[n] = V(f"(none : {ty(ot)})", ot)
     for n, t in params:
         if not lname_ok(n):
             tr.bad(func, f"parameter `{n}` clashes with a name of the emitted text")
@@ -2033,6 +2240,7 @@ def _translate(tr, func, spec, assume_raises):
     if tr.state is not None:
         binders.append((tr.state["param"], tr.state["type"]))
     sig = "".join(f"{{{t} : Type}} " for t in spec.get("tparams", ())) + " ".join(f"({n} : {ty(t)})" for n, t in binders)
+    out.extend(getattr(tr, "aux_defs", []))
     out.append(f"def {tr.name} {sig} : {rtype} :=\n{ind(text)}\n")
     return "\n".join(out)
 
